@@ -268,13 +268,20 @@ MutualWait(s0) == \E s \in DOMAIN s0.sess : ~s0.sess[s].bound /\ s0.sess[s].pid 
 
 Obs(s0, o) == [per |-> PerSession(o), mw |-> MutualWait(s0)]
 
-RECURSIVE SeqOutcomes(_, _, _, _)
-SeqOutcomes(prog, s0, o, ix) ==
+\* post: calls made one after another once every thread has finished (a probe
+\* that makes the state left behind by the concurrent part observable)
+RECURSIVE SeqFold(_, _, _)
+SeqFold(s0, o, calls) ==
+    IF calls = <<>> THEN {[obs |-> Obs(s0, o), st |-> Proj(s0)]}
+    ELSE UNION { SeqFold(r.st, o \o r.outs, Tail(calls)) : r \in SeqApply(s0, Head(calls)) }
+
+RECURSIVE SeqOutcomes(_, _, _, _, _)
+SeqOutcomes(prog, post, s0, o, ix) ==
     LET ready == {t \in 1..Len(prog) : ix[t] <= Len(prog[t])} IN
-    IF ready = {} THEN {[obs |-> Obs(s0, o), st |-> Proj(s0)]}
-    ELSE UNION { UNION { SeqOutcomes(prog, r.st, o \o r.outs, [ix EXCEPT ![t] = @ + 1])
+    IF ready = {} THEN SeqFold(s0, o, post)
+    ELSE UNION { UNION { SeqOutcomes(prog, post, r.st, o \o r.outs, [ix EXCEPT ![t] = @ + 1])
                          : r \in SeqApply(s0, prog[t][ix[t]]) } : t \in ready }
 
-SeqResultsOf(prog) == SeqOutcomes(prog, InitSt, <<>>, [t \in 1..Len(prog) |-> 1])
-SeqObsOf(prog) == {x.obs : x \in SeqResultsOf(prog)}
+SeqResultsOf(prog, post) == SeqOutcomes(prog, post, InitSt, <<>>, [t \in 1..Len(prog) |-> 1])
+SeqObsOf(prog, post) == {x.obs : x \in SeqResultsOf(prog, post)}
 =============================================================================
